@@ -86,6 +86,14 @@ def insertFront (a : Bytes) (l : List Bytes) : List Bytes × Bool :=
   else if l.head? != some a then (a :: l.erase a, false)
   else (l, false)
 
+/-- the assignments of the `DNSService` branch -/
+def Info.setSrvHost (i : Info) (server serverKey : String) (priority weight port : Nat) : Info :=
+  { i with server := some server, serverKey := some serverKey, port := some port, weight := weight, priority := priority }
+
+/-- `_set_ipv4_addresses_from_cache` then `_set_ipv6_addresses_from_cache` -/
+def Info.reloadAddrs (lower : String → String) (c : Cache) (now : Int) (i : Info) : Info :=
+  { i with v4 := addrsLifo lower c i.serverKey now Gen.typeA, v6 := addrsLifo lower c i.serverKey now Gen.typeAaaa }
+
 def processRecord (lower : String → String) (c : Cache) (i : Info) (r : Rec) (now : Int) : Info × Bool :=
   if r.isExpired now then (i, false) else
   match r.rdata with
@@ -94,17 +102,15 @@ def processRecord (lower : String → String) (c : Cache) (i : Info) (r : Rec) (
       match addrVersion a with
       | none => (i, false)
       | some v =>
-        if v == 4 then let p := insertFront a i.v4; ({ i with v4 := p.1 }, p.2)
-        else let p := insertFront a i.v6; ({ i with v6 := p.1 }, p.2)
+        if v == 4 then ({ i with v4 := (insertFront a i.v4).1 }, (insertFront a i.v4).2)
+        else ({ i with v6 := (insertFront a i.v6).1 }, (insertFront a i.v6).2)
     else (i, false)
   | .txt t => if lower r.name != i.key then (i, false) else ({ i with text := t }, true)
   | .srv priority weight port server =>
-    if lower r.name != i.key then (i, false) else
-    let i' : Info := { i with name := r.name, key := lower r.name, server := some server, serverKey := some (lower server),
-                              port := some port, weight := weight, priority := priority }
-    if i.serverKey != i'.serverKey then
-      ({ i' with v4 := addrsLifo lower c i'.serverKey now Gen.typeA, v6 := addrsLifo lower c i'.serverKey now Gen.typeAaaa }, true)
-    else (i', true)
+    if lower r.name != i.key then (i, false)
+    else if i.serverKey != some (lower server) then
+      ((({ i with name := r.name, key := lower r.name } : Info).setSrvHost server (lower server) priority weight port).reloadAddrs lower c now, true)
+    else (({ i with name := r.name, key := lower r.name } : Info).setSrvHost server (lower server) priority weight port, true)
   | _ => (i, false)
 
 /-- the loop of `async_update_records`: `updated |= …` -/
@@ -121,21 +127,30 @@ def addrRecs (lower : String → String) (c : Cache) (i : Info) (type : Nat) : L
   | none => []
   | some k => getAll lower c k type Gen.classIn
 
-/-- `_load_from_cache` (`info.py:724-752`) -/
+def loadSrv (lower : String → String) (c : Cache) (i : Info) (now : Int) : Info :=
+  match getByDetails lower c i.name Gen.typeSrv Gen.classIn with
+  | some r => (processRecord lower c i r now).1
+  | none => i
+
+def loadTxt (lower : String → String) (c : Cache) (i : Info) (now : Int) : Info :=
+  match getByDetails lower c i.name Gen.typeTxt Gen.classIn with
+  | some r => (processRecord lower c i r now).1
+  | none => i
+
+def loadAddrs (lower : String → String) (c : Cache) (i : Info) (now : Int) : Info :=
+  (processAll lower c now (processAll lower c now i (addrRecs lower c i Gen.typeA)).1
+    (addrRecs lower c (processAll lower c now i (addrRecs lower c i Gen.typeA)).1 Gen.typeAaaa)).1
+
+/-- `_load_from_cache` (`info.py:724-752`): the SRV `get_by_details` returns, then the TXT, then --
+only when the SRV did not change the server key (else they were loaded by the SRV branch) -- every A
+and every AAAA of the server -/
+def loadInfo (lower : String → String) (c : Cache) (i : Info) (now : Int) : Info :=
+  if i.serverKey == (loadTxt lower c (loadSrv lower c i now) now).serverKey then
+    loadAddrs lower c (loadTxt lower c (loadSrv lower c i now) now) now
+  else loadTxt lower c (loadSrv lower c i now) now
+
 def loadFromCache (lower : String → String) (c : Cache) (i : Info) (now : Int) : Info × Bool :=
-  let orig := i.serverKey
-  let i1 := match getByDetails lower c i.name Gen.typeSrv Gen.classIn with
-    | some r => (processRecord lower c i r now).1
-    | none => i
-  let i2 := match getByDetails lower c i1.name Gen.typeTxt Gen.classIn with
-    | some r => (processRecord lower c i1 r now).1
-    | none => i1
-  let i3 :=
-    if orig == i2.serverKey then
-      let i3a := (processAll lower c now i2 (addrRecs lower c i2 Gen.typeA)).1
-      (processAll lower c now i3a (addrRecs lower c i3a Gen.typeAaaa)).1
-    else i2
-  (i3, i3.complete)
+  (loadInfo lower c i now, (loadInfo lower c i now).complete)
 
 /-! ### `_generate_request_query` (`info.py:867-918`) and the question history (`_history.py`) -/
 
